@@ -5,6 +5,7 @@ VARIABLE l
 RecOK(r) ==
   IF r.k = "crash" THEN FALSE
   ELSE IF r.k = "destroy" THEN r.once = r.n /\ r.other = 0
+  ELSE IF r.k = "find_unique" THEN r.res = r.pos          \* the only matching element must be found wherever it is
   ELSE IF r.rand = 1 THEN
     \* random inputs are not shipped: the harness compared with the std:: algorithm / checked the defining predicate
     CASE r.k = "sort" -> r.eqstd = 1
